@@ -90,6 +90,7 @@ def run_case(mod, case, state=None):
 
 def shard_main(pid, tier, seed, shard, nshards, out_path):
     os.environ.setdefault("NUMBA_CACHE_DIR", numba_cache_dir())
+    os.environ["VF_ROT"] = str(shard + 3 * seed)
     core.import_hvsrpy()
     import hypothesis
     from hypothesis import given, settings, HealthCheck, Phase
